@@ -65,7 +65,7 @@ class CCodeMapper(SimplifyingSortingStringifyMapper):
         ...
         _cse_u = 3 * x * x + -5;
         >>> print(result)
-        _cse_u / (_cse_u + 3) * (_cse_u + 5)
+        (_cse_u / (_cse_u + 3)) * (_cse_u + 5)
 
     See :class:`pymbolic.mapper.stringifier.CSESplittingStringifyMapperMixin`
     for the ``cse_*`` attributes.
@@ -99,11 +99,16 @@ class CCodeMapper(SimplifyingSortingStringifyMapper):
 
     def map_product(self, expr, enclosing_prec):
         from pymbolic.mapper.stringifier import PREC_PRODUCT
+        from pymbolic.primitives import Quotient, Remainder
         return self.parenthesize_if_needed(
                 # Spaces prevent '**z' (times dereference z), which
                 # is hard to read.
 
-                self.join_rec(" * ", expr.children, PREC_PRODUCT),
+                self.join_rec(" * ", expr.children, PREC_PRODUCT,
+                    # as in StringifyMapper.map_product: 'a * (b % c) * a'
+                    # must not become 'a * b % c * a'. (map_floor_div
+                    # already supplies its own parentheses.)
+                    force_parens_around=(Quotient, Remainder)),
                 enclosing_prec, PREC_PRODUCT)
 
     def map_constant(self, x, enclosing_prec):
